@@ -182,10 +182,8 @@ def o4_multicast(ctx, lx, lvl, custom):
     else:
         ok = net.multicast(b"hi", 1, lvl)
         eff = lvl
-    # whether it is transmitted at all (loop-back of a node addressing its own level address) is C14's
-    # business; C04 claims where it goes when it is transmitted
     sent = radio.sent[sent0:]
-    ctx.check(len(sent) <= 1, "the multicast is transmitted at most once")
+    ctx.check(len(sent) == 1, "the multicast is transmitted, once (also when the level code equals the sender's own address)")
     if len(sent) == 1:
         ctx.check(bytes_eq(sent[0]["addr"], NS.level_addr(eff, prefix, suffix)),
                   "a multicast to level L is transmitted to exactly the level-L address")
